@@ -14,6 +14,7 @@ From Coq Require Import Permutation.
 From Eino Require Import Base.Util Model.Graph Model.Chain Model.ChainSpec Model.ChainCompile Model.PregelOpts Model.PregelHyps Proofs.Graph
   Proofs.PregelBase Proofs.Pregel Proofs.PregelRun Proofs.PregelNest Proofs.PregelTop
   Proofs.PregelChainLower Proofs.PregelChain Proofs.PregelOrder Proofs.PregelChainCompile Proofs.PregelOpts Proofs.PregelHyps Proofs.PregelStream.
+From Eino Require Model.ImpGenLib Model.CalcBranchSpec Model.ChainGenLib Model.ChainLowerSpec Model.ChainLowerInst Proofs.CalcBranchModel Proofs.ChainLowerModel Proofs.ChainLowerReject.
 Open Scope N_scope.
 
 (* ---------- default step limit = number of nodes + 10 (graph.compile) ---------- *)
@@ -578,3 +579,88 @@ Proof.
   econstructor; [vm_compute; reflexivity|]. econstructor; [vm_compute; reflexivity|].
   econstructor; [vm_compute; reflexivity|]. constructor.
 Qed.
+
+(* ---------- the code of runner.calculateBranch and of the chain lowering, as functions (round 4) ----------
+   Model/CalcBranchSpec.v and Model/ChainLowerSpec.v state compose/graph_run.go:calculateBranch and the lowering
+   methods of compose/chain.go as functions of their arguments and of the untranslated code they call; tools/go2v
+   regenerates both from the source on every run and Proofs/GenAgreeCalcBranch.v / GenAgreeChainLower.v (proof
+   obligations of this property, props/C01.json gen_files) prove the regenerated functions equal to them. The
+   theorems below tie them to the engine model. *)
+
+(* calculateBranch on a node of the model, every branch reading the node's output, in any-predecessor mode: it
+   is eval_branches followed by report_branch (the first two steps of resolve_one), for every graph, node, output *)
+Theorem calculate_branch_code_is_engine :
+  forall (V : Type) (ops : vops V) ec g n out isStream cs,
+    g_mode g = Pregel ->
+    Model.CalcBranchSpec.calculate_branch V branch (chans V) (v_zero ops) ec b_ends (Proofs.CalcBranchModel.no_pre_handler V) (Proofs.CalcBranchModel.model_invoke V ops) (Proofs.CalcBranchModel.model_invoke V ops)
+      (fun cs k sk => report_branch V g k sk cs)
+      (n_key n) (n_branches n) (n_csucc n) (repeat out (List.length (n_branches n))) isStream cs
+    = do ss <- eval_branches V ops n out;
+      do cs' <- report_branch V g (n_key n) (snd ss) cs;
+      Ok (fst ss, cs').
+Proof. exact Proofs.CalcBranchModel.spec_calculate_branch_pregel. Qed.
+Print Assumptions calculate_branch_code_is_engine.
+
+(* in every mode: the selected nodes are eval_branches', and the list handed to reportBranch is duplicate-free
+   with exactly the elements of eval_branches' skipped list (Go collects it by ranging over a map) *)
+Theorem calculate_branch_code_skips_exactly :
+  forall (V : Type) (ops : vops V) n out sel sk,
+    eval_branches V ops n out = Ok (sel, sk) ->
+    sel = Proofs.CalcBranchModel.all_selected V ops (n_branches n) out
+    /\ NoDup (Proofs.CalcBranchModel.spec_skipped V ops n out) /\ NoDup sk
+    /\ (forall k, In k (Proofs.CalcBranchModel.spec_skipped V ops n out) <-> In k sk).
+Proof. exact Proofs.CalcBranchModel.spec_skipped_is_model. Qed.
+Print Assumptions calculate_branch_code_skips_exactly.
+
+(* NewChain, the Append* calls of the stages and addEndIfNeeded, run on the model's node lists, build for every
+   chain that chain_compiles accepts exactly the graph chain_lower that chain_lowering_correct is about *)
+Theorem chain_lowering_code_builds_chain_lower :
+  forall auto_key k_empty sts max,
+    chain_compiles sts = true ->
+    ~ In k_empty (chain_all_keys sts) ->
+    Model.ChainLowerInst.li_compile auto_key k_empty sts max = chain_lower sts max.
+Proof. exact Proofs.ChainLowerModel.li_compile_is_chain_lower. Qed.
+Print Assumptions chain_lowering_code_builds_chain_lower.
+
+(* and it reports an error for every chain chain_compiles rejects: the acceptance rule that the correspondence
+   compares with Chain.Compile is the rule the lowering code implements *)
+Theorem chain_lowering_code_decides :
+  forall auto_key k_empty sts max,
+    ~ In k_empty (chain_all_keys sts) ->
+    Model.ChainLowerInst.li_compile auto_key k_empty sts max = if chain_compiles sts then chain_lower sts max else None.
+Proof. exact Proofs.ChainLowerReject.li_compile_decides. Qed.
+Print Assumptions chain_lowering_code_decides.
+
+(* non-vacuity of the rejecting direction: a Parallel of one node, a Branch after a Parallel, a key used twice *)
+Example ex_chain_code_rejects :
+  let n k := {| sn_key := k; sn_kind := KLambda; sn_outkey := None |} in
+  let o k ok := {| sn_key := k; sn_kind := KLambda; sn_outkey := Some ok |} in
+  forallb (fun sts => negb (chain_compiles sts)
+                      && match Model.ChainLowerInst.li_compile (fun _ _ => 999) 998 sts 0 with None => true | Some _ => false end)
+    [ [];
+      [SPar [o 2 20]];
+      [SPar [o 2 20; o 3 30]; SBranch [n 4; n 5] [[4]]];
+      [SNode (n 2); SNode (n 2)];
+      [SPar [o 2 20; o 3 20]];
+      [SNode (n 1)] ] = true.
+Proof. vm_compute. reflexivity. Qed.
+
+(* non-vacuity: the chain code on a 4-stage chain (node, parallel, node, branch) *)
+Example ex_chain_code_lowers :
+  let sts := [ SNode {| sn_key := 2; sn_kind := KLambda; sn_outkey := None |};
+               SPar [ {| sn_key := 3; sn_kind := KLambda; sn_outkey := Some 30 |}; {| sn_key := 4; sn_kind := KPass; sn_outkey := Some 40 |} ];
+               SNode {| sn_key := 5; sn_kind := KLambda; sn_outkey := None |};
+               SBranch [ {| sn_key := 6; sn_kind := KLambda; sn_outkey := None |}; {| sn_key := 7; sn_kind := KLambda; sn_outkey := None |} ] [[6]; [6; 7]] ] in
+  chain_compiles sts = true /\ ~ In 998 (chain_all_keys sts)
+  /\ Model.ChainLowerInst.li_compile (fun _ _ => 999) 998 sts 0 = chain_lower sts 0
+  /\ Model.ChainGenLib.is_some (chain_lower sts 0) = true.
+Proof. cbv zeta. split; [vm_compute; reflexivity|]. split; [vm_compute; intuition discriminate|]. split; vm_compute; reflexivity. Qed.
+
+(* non-vacuity: calculateBranch's specification on a node with two branches and a direct control successor *)
+Example ex_calculate_branch_code :
+  let n := {| n_key := 2; n_kind := KLambda; n_outkey := None; n_dsucc := [6]; n_csucc := [6]; n_dmap := [];
+              n_branches := [ {| b_ends := [3;4;5]; b_nodata := false; b_table := [[3;4]] |};
+                              {| b_ends := [4;6]; b_nodata := false; b_table := [[4]] |} ] |} in
+  eval_branches value tree_ops n (VAtom 7) = Ok ([3;4;4], [5])
+  /\ Proofs.CalcBranchModel.spec_skipped value tree_ops n (VAtom 7) = [5].
+Proof. split; vm_compute; reflexivity. Qed.
